@@ -1,7 +1,7 @@
 (* utils.rs: clean_input; uci.rs: parse_go_command, the dispatch loop and find_and_play_best_move
    as a state machine.  The two threads of a go meet in two parameters of the step: the expiry
    index k of the virtual clock and the index [pick] of the send the polling loop holds when it leaves. *)
-From Walleye Require Export Model.Search Model.TimeControl.
+From Walleye Require Export Model.Search Model.GameTime.
 Open Scope Z_scope.
 
 (* ---- utils::clean_input *)
@@ -79,13 +79,13 @@ Definition sends_of (ev : list event) : list BoardState :=
 Definition infos_of (ev : list event) : list str :=
   flat_map (fun e => match e with Info l => [l] | Send _ => [] end) ev.
 
-(* find_and_play_best_move *)
+(* find_and_play_best_move.  The time slice (Model/TimeControl.v) only fixes when the real clock
+   expires; here expiry is the schedule's k, so the slice does not appear. *)
 Definition go_step (st : session) (cmds : list str) (sc : sched) : session * list str :=
   match parse_go_command cmds with
   | Panic p => (mkSess (ss_board st) (ss_table st) (Crashed p), [])
   | Err _ => (st, [])
   | Ok gt =>
-      let _slice := calculate_time_slice gt (to_move (ss_board st)) in
       match generate_moves zt (ss_board st) AllMoves with
       | [] => (st, [s_bestmove ++ NULL_MOVE_TEXT])
       | _ =>
